@@ -24,6 +24,9 @@ def _resolve_node(value, ctx, info): return "A"                                 
 def _resolve_u(value, ctx, info): return "A"                                                                  # noqa: E704
 def _sub(root, ctx, info, **kw): return None                                                                  # noqa: E704
 def _res_echo(root, ctx, info, **kw): return json.dumps(kw, sort_keys=True)                                  # noqa: E704
+def _schema_default(root, ctx, info, **kw):
+    from py_gql.execution.default_resolver import default_resolver
+    return 42 if info.field_definition.name in ("plain", "s2") else default_resolver(root, ctx, info, **kw)
 
 
 def code_source():
@@ -39,6 +42,7 @@ def code_source():
     u = UnionType("U", [a, b], resolve_type=_resolve_u, description="a union")
     q = ObjectType("Query", [
         Field("a", a, resolver=_res_a), Field("b", b, resolver=lambda *_, **__: {}), Field("u", u, resolver=_res_a), Field("node", node, resolver=_res_a),
+        Field("plain", Int),            # resolved by the SCHEMA-WIDE default resolver
         Field("echo_args", String, args=[Argument("in_value", inp, default_value={"f": 1, "some_value": "d"}, python_name="inv", description="arg"),
                                          Argument("c", color, default_value="blue"), Argument("k", Int),
                                          Argument("nul", Int, default_value=None, description="defaults to null")], resolver=_res_echo),
@@ -47,7 +51,9 @@ def code_source():
     only = ObjectType("OnlyImpl", [Field("id", NonNullType(ID)), Field("w", Int, resolver=_default_b)], interfaces=[node], description="no field refers to this type")
     loose = EnumType("Loose", [EnumValue("L", 0)], description="nothing refers to this type")
     tag = Directive("tag", ["FIELD_DEFINITION"], args=[Argument("v", Int, default_value=1), Argument("w", Int, default_value=None)], description="a tag")
-    return Schema(q, subscription_type=sub, types=[a, b, u, node, color, inp, only, loose], directives=[tag])
+    schema = Schema(q, subscription_type=sub, types=[a, b, u, node, color, inp, only, loose], directives=[tag])
+    schema.default_resolver = _schema_default
+    return schema
 
 
 def sdl_source(default=10):
@@ -56,6 +62,7 @@ def sdl_source(default=10):
     s.register_default_resolver("B", _default_b)
     s.types["U"].resolve_type = _resolve_u
     s.types["Node"].resolve_type = _resolve_node
+    s.default_resolver = _schema_default
     return s
 
 
@@ -150,7 +157,10 @@ def attrs(schema, rename=lambda x: x):
     return out
 
 
-HIDE = (("type", "B"), ("type", "U"), ("type", "Color"), ("field", "A", "n"), ("field", "Query", "u"), ("input", "In", "g"), ("directive", "tag"), ("type", "Node"))
+HIDE = (("type", "B"), ("type", "U"), ("type", "Color"), ("field", "A", "n"), ("field", "Query", "u"), ("input", "In", "g"), ("directive", "tag"), ("type", "Node"),
+        ("type", "Subscription"), ("type", "Mutation"))          # root operation types can be hidden too
+NHIDE = len(HIDE)
+ALLHIDE = (1 << NHIDE) - 1
 
 
 class Vis(VisibilitySchemaTransform):
@@ -239,7 +249,7 @@ def registry(schema):
             tuple(sorted((t, id(fn)) for t, fn in schema.default_resolvers.items())), id(schema.default_resolver))
 
 
-PROBES = ("{ a { id first_name n } b { b_value } u { __typename } echo_args(k: 1) }", "{ s }", "{ s }")
+PROBES = ("{ a { id first_name n } b { b_value } u { __typename } echo_args(k: 1) plain }", "{ s e }", "{ s e }")
 
 
 def probe(schema, src):
@@ -316,15 +326,22 @@ def check_step(source, before_attrs, before_sdl, result_schema, op, arg):
             key = (h[1],) if h[0] in ("type",) else (("@" + h[1],) if h[0] == "directive" else (h[1], h[2]))
             if key in got:
                 return "hidden element %r still in the schema" % (h,)
+            if h[0] == "type":
+                # a hidden ROOT operation type must be gone as a root as well: not introspectable, not executable
+                for attr, op in (("query_type", "query"), ("mutation_type", "mutation"), ("subscription_type", "subscription")):
+                    root = getattr(result_schema, attr)
+                    if root is not None and root.name == h[1] and attr != "query_type":
+                        return "hidden root type %r is still the %s root" % (h[1], op)
     return ""
 
 
-def _op_sequences(src: int, o1: int, a1: int, o2: int, a2: int, o3: int, a3: int, mut: int = 0) -> bool:
+def _op_sequences(src: int, o1: int, a1: int, o2: int, a2: int, o3: int, a3: int, mut: int = 0, chain: bool = False) -> bool:
     """
+    pre: not chain or (mut == 0 and o2 >= 0)
     pre: 0 <= src < len(SOURCES) and 0 <= mut < len(MUTATORS)
     pre: mut == 0 or o3 == -1
     pre: 0 <= o1 < 4 and -1 <= o2 < 4 and -1 <= o3 < 4 and (o3 == -1 or o2 >= 0)
-    pre: 0 <= a1 < 256 and 0 <= a2 < 256 and 0 <= a3 < 256
+    pre: 0 <= a1 <= ALLHIDE and 0 <= a2 <= ALLHIDE and 0 <= a3 <= ALLHIDE
     pre: shard_of(o1 * 5 + o2 + 1 + a1 + src * 3)
     pre: thorough() or o3 == -1 or (o1 == o2 and o2 == o3 and o1 != 3)
     pre: vis_mask_in_tier(o1, a1, o2) and vis_mask_in_tier(o2, a2, o2) and vis_mask_in_tier(o3, a3, o2)
@@ -348,8 +365,9 @@ def _op_sequences(src: int, o1: int, a1: int, o2: int, a2: int, o3: int, a3: int
                 return result(True, False)
             ops.append((name, concrete_int(a, 0, len(EXTENSIONS) - 1)))
         else:
-            ops.append((name, concrete_int(a, 0, 255)))
+            ops.append((name, concrete_int(a, 0, ALLHIDE)))
     MUT = concrete_int(mut, 0, len(MUTATORS) - 1)
+    CH = True if chain else False
     with untraced():
         source = SOURCES[SRC]()
         if SRC == 1 and any(op == "extend" for op, _ in ops):
@@ -358,13 +376,36 @@ def _op_sequences(src: int, o1: int, a1: int, o2: int, a2: int, o3: int, a3: int
         before_registry, before_probe = registry(source), probe(source, SRC)
         problem = ""
         # every operation is applied to the SAME source (quick: sequences of length 3 only when all three operations are of the same kind) (clone-based operations must leave it reusable)
-        for op, arg in ops:
+        current = source
+        for n_op, (op, arg) in enumerate(ops):
             try:
-                res = apply_op(source, op, arg)
+                res = apply_op(current if CH else source, op, arg)
             except Exception as e:  # noqa
+                if CH and n_op > 0 and op == "extend" and isinstance(e, Exception) and type(e).__name__ in ("ExtensionError", "SDLError"):
+                    return result(True, False)      # the extension document refers to something an earlier step of the chain removed / renamed
                 problem = "%s(%s) raised %r" % (op, arg, e)
                 break
+            if CH and n_op > 0:
+                # chained: each operation is applied to the RESULT of the previous one; the result must be a usable, closed, valid schema
+                problem = closed(res)
+                if not problem:
+                    try:
+                        res.validate()
+                        res.to_string()
+                        introspected_names(res)
+                    except Exception as e:  # noqa
+                        problem = "result of the chain is not usable: %r" % (e,)
+                if not problem and (attrs(source) != before_attrs or source.to_string() != before_sdl):
+                    problem = "source modified"
+                current = res
+                if problem:
+                    problem = "%s(%s) after %r: %s" % (op, arg, ops[:n_op], problem)
+                    break
+                continue
+            current = res
             problem = check_step(source, before_attrs, before_sdl, res, op, arg)
+            if not problem and op in ("clone", "extend") and probe(res, SRC) != before_probe:
+                problem = "the derived schema answers the probe query differently from its source"
             if not problem and MUT:
                 # the derived schema is then used: resolvers registered on it must not show in the source
                 mutate(res, MUT)
@@ -388,7 +429,7 @@ def vis_mask_in_tier(o, a, o2) -> bool:
     if thorough() and o2 == -1:
         return True        # a single visibility transform: all 256 predicates
     # quick: masks with at most one bit set, plus all-hidden
-    return a == 255 or a == 0 or a == 1 or a == 2 or a == 4 or a == 8 or a == 16 or a == 32 or a == 64 or a == 128
+    return a == ALLHIDE or a == 255 or a == 0 or a == 1 or a == 2 or a == 4 or a == 8 or a == 16 or a == 32 or a == 64 or a == 128 or a == 256 or a == 512
 
 
 CONDITIONS = [
@@ -396,11 +437,12 @@ CONDITIONS = [
         name="op_sequences", fn=_op_sequences, quick=200, thorough=1200, per_path=90, shards_quick=20, shards_thorough=20,
         bound="3 source schemas (code-built with resolvers / default resolvers / type resolvers / subscription resolver / python names / defaults incl. explicit null defaults / descriptions / deprecations; SDL-built with registered resolvers, "
               "once with an object default and once with a `= null` default) "
-              "x every sequence of 1..3 operations from {clone, camel-case, extend with one of 6 documents, visibility with an 8-bit predicate (all 256 for a single transform in the thorough tier; <= 1 bit or all bits inside sequences)} applied to the SAME source (quick: sequences of length 3 only when all three operations are of the same kind) "
+              "x every sequence of 1..3 operations from {clone, camel-case, extend with one of 6 documents, visibility with a 10-bit predicate incl. the subscription and mutation root types (all 1024 for a single transform in the thorough tier; <= 1 bit or all bits inside sequences)} applied to the SAME source (quick: sequences of length 3 only when all three operations are of the same kind) "
               "x 4 uses of each derived schema through the registration API (nothing / resolvers / default resolvers / subscription resolvers registered on it; for sequences of length <= 2): the source's elements, "
-              "resolver registries, printed SDL and the answer to a probe query stay what they were",
-        symbolic={"src": "choice", "o1..o3": "choice: operations", "a1..a3": "choice: extension document / visibility bits", "mut": "choice: what is registered on each derived schema afterwards"},
+              "resolver registries, printed SDL and the answer to a probe query stay what they were (a clone / extension answers the probe like its source: schema-wide default resolver included); "
+              "the same sequences CHAINED (each operation applied to the previous result): every intermediate result is closed, valid, printable and introspectable",
+        symbolic={"src": "choice", "o1..o3": "choice: operations", "a1..a3": "choice: extension document / visibility bits", "mut": "choice: what is registered on each derived schema afterwards", "chain": "choice: operations applied to the same source or each to the previous result"},
         assumptions=["oracle: closed() + attribute snapshot attrs() + introspection query; 'preserved' is checked for every element the operation does not target"],
-        witness={"src": 1, "o1": 0, "a1": 0, "o2": 1, "a2": 0, "o3": -1, "a3": 0, "mut": 1},
+        witness={"src": 1, "o1": 0, "a1": 0, "o2": 1, "a2": 0, "o3": -1, "a3": 0, "mut": 1, "chain": False},
     ),
 ]
